@@ -276,11 +276,15 @@ def shifted_ops_of_interpreter():
 def _decode_loop(fi, repo=None):
     """the top-level statement of the patcher that holds the instruction loop over co_code - the loop itself, or the call of
     the private helper (reached only from the patcher) the loop has been moved to"""
-    loops = [s for s in fi.node.body if isinstance(s, (ast.While, ast.For)) and 'co_code' in norm(s)]
+    def over_code(fn, s):
+        # the loop reads the code bytes: `<x>.co_code` itself or a local the function bound to it (`bytecode = code.co_code`)
+        al = {t.id for st in ast.walk(fn) if isinstance(st, ast.Assign) and norm(st.value).endswith('.co_code') for t in st.targets if isinstance(t, ast.Name)}
+        return 'co_code' in norm(s) or any(isinstance(n, ast.Name) and n.id in al for n in ast.walk(s))
+    loops = [s for s in fi.node.body if isinstance(s, (ast.While, ast.For)) and over_code(fi.node, s)]
     if loops:
         return loops[0]
     if repo is not None:
-        holders = [g for g in _family(repo, fi) if g is not fi and any(isinstance(s, (ast.While, ast.For)) and 'co_code' in norm(s) and 'dis.opname' in norm(s) for s in ast.walk(g.node))]
+        holders = [g for g in _family(repo, fi) if g is not fi and any(isinstance(s, (ast.While, ast.For)) and over_code(g.node, s) and 'dis.opname' in norm(s) for s in ast.walk(g.node))]
         for g in holders:
             for st in fi.node.body:
                 if any((isinstance(c.func, ast.Name) and c.func.id == g.name) or (isinstance(c.func, ast.Attribute) and c.func.attr == g.name) for c in calls_in(st)):
@@ -461,17 +465,23 @@ def r5b(repo, run):
             # the code unit of the jump: <units>[<k>] read as (opcode, operand) = [0], [1]; its position in the old code: <map>[<k>]
             unit_sub = None
             for x in ast.walk(idx):
-                if isinstance(x, ast.Subscript) and isinstance(x.slice, ast.Constant) and x.slice.value == 1 and isinstance(x.value, ast.Subscript):
-                    unit_sub = x.value
+                if isinstance(x, ast.Subscript) and isinstance(x.slice, ast.Constant) and x.slice.value == 1 and isinstance(x.value, (ast.Subscript, ast.Name)):
+                    unit_sub = x.value          # the code unit of the jump: <units>[<k>] or a parameter that holds it
             if unit_sub is None:
                 continue
             seen = True
-            key = norm(unit_sub.slice)
             subst0 = {norm(ast.Subscript(value=unit_sub, slice=ast.Constant(value=1), ctx=ast.Load())): R}
             optext = norm(ast.Subscript(value=unit_sub, slice=ast.Constant(value=0), ctx=ast.Load()))
-            for x in ast.walk(idx):
-                if isinstance(x, ast.Subscript) and norm(x.slice) == key and norm(x) != norm(unit_sub):
-                    subst0[norm(x)] = J
+            if isinstance(unit_sub, ast.Subscript):
+                key = norm(unit_sub.slice)
+                for x in ast.walk(idx):
+                    if isinstance(x, ast.Subscript) and norm(x.slice) == key and norm(x) != norm(unit_sub):
+                        subst0[norm(x)] = J
+            else:
+                # helper form: the position of the jump in the old code is a lookup <map>[<parameter>] (the jump's new position is a parameter)
+                pos = {norm(x) for x in ast.walk(idx) if isinstance(x, ast.Subscript) and isinstance(x.slice, ast.Name) and x is not look[0] and not (isinstance(x.value, ast.Name) and x.value.id == unit_sub.id)}
+                if len(pos) == 1:
+                    subst0[pos.pop()] = J
             if len(subst0) < 2:
                 raise AnalysisError('_patch_access_to_globals: position of a relative jump in the old code not recognised in %s' % norm(idx)[:80])
             for opname in ('JUMP_BACKWARD', 'JUMP_BACKWARD_NO_INTERRUPT', 'JUMP_FORWARD', 'POP_JUMP_IF_FALSE', 'FOR_ITER', 'SEND'):
@@ -545,6 +555,7 @@ def r5c(repo, run):
                 except tr._Unknown:
                     return None
             reads, units = [], []
+            symbolic = False
             for e in p.events:
                 if e.kind != 'subscr' or not (e.callee or '').endswith('co_code'):
                     continue
@@ -552,13 +563,17 @@ def r5c(repo, run):
                 if isinstance(sl, ast.Slice):
                     a, b = ev(sl.lower) if sl.lower is not None else 0, ev(sl.upper) if sl.upper is not None else None
                     if a is None or b is None or sl.step is not None:
-                        raise AnalysisError('_patch_access_to_globals: slice co_code[%s] not evaluable' % e.value.text)
+                        symbolic = True
+                        continue
                     units.append((a, b, e))
                 else:
                     r = ev(sl)
                     if r is None:
-                        raise AnalysisError('_patch_access_to_globals: index co_code[%s] not evaluable' % e.value.text)
+                        symbolic = True
+                        continue
                     reads.append((r, e))
+            if symbolic:
+                continue       # positions that depend on a symbolic count (a loop over range(caches)): this path proves nothing
             if not reads and not units:
                 continue
             rows += 1
@@ -660,13 +675,25 @@ def r6(repo, run):
         run.info('C12.R6', fi, 'unchanged-code shortcut', 'no shortcut return after the loop')
         return
     _, paths2 = _patcher_paths(repo, after[0])
+    # per kind of change: the paths on which it happened (and the other kind did not) either all take the shortcut - the defect - or
+    # some go on to rebuild the code object (a flag carried out of the loop through a helper's result is not always a constant for
+    # the interpreter: the paths it cannot exclude prove nothing, the ones that go on prove the flag is consulted)
+    took = {'nested': [], 'redirect': []}
+    went_on = {'nested': 0, 'redirect': 0}
     for p in paths2:
-        if p.status != 'return' or p.ret is None or p.ret.elems is None or len(p.ret.elems) != 2:
-            continue
         nested_changed = any(pol and t.startswith('EvalNode._patch_access_to_globals(') and t.endswith('[1]') for t, pol in p.facts)
         redirected = any(x[0] == 'LOAD_ATTR' for x in _emissions(p))
-        if (nested_changed or redirected) and p.ret.elems[1].const is False:
-            run.violation('C12.R6', tr.where(fi, tr.final_event(p)), 'unchanged-code shortcut', 'the unchanged-code shortcut does not account for %s: the original code object is returned' % ('patched nested code objects' if nested_changed else 'redirected instructions'))
+        kind = 'redirect' if redirected and not nested_changed else ('nested' if nested_changed and not redirected else None)
+        if kind is None:
+            continue
+        if p.status == 'return' and p.ret is not None and p.ret.elems is not None and len(p.ret.elems) == 2 and p.ret.elems[1].const is False:
+            took[kind].append(p)
+        elif p.status in ('cut', 'return'):
+            went_on[kind] += 1
+    for kind in ('nested', 'redirect'):
+        if took[kind] and not went_on[kind]:
+            p = took[kind][0]
+            run.violation('C12.R6', tr.where(fi, tr.final_event(p)), 'unchanged-code shortcut', 'the unchanged-code shortcut does not account for %s: the original code object is returned' % ('patched nested code objects' if kind == 'nested' else 'redirected instructions'))
             return
     run.ok('C12.R6', fi, 'unchanged-code shortcut taken only when neither this code object nor a nested one was patched')
 
